@@ -32,10 +32,17 @@ type C17Case struct {
 	Tail    uint32 `json:"tail"`
 	Delay   int    `json:"delay_ms"` // the scripted receiver answers the resume request after this long
 	NoAns   bool   `json:"no_answer"`
+	// Small: small-file threshold of the sender in bytes (0 = default, every file of the harness
+	// is "small"); with 2 the multi-chunk files go through the scheduler's weighted path
+	Small int64 `json:"small_threshold,omitempty"`
 }
 
 func (c C17Case) String() string {
-	return fmt.Sprintf("chunks=%v workers=%d bitmap=%v hash=%s tail=%d delay=%dms noanswer=%v", c.Chunks, c.Streams, c.Bitmap, c.Hash, c.Tail, c.Delay, c.NoAns)
+	sm := ""
+	if c.Small > 0 {
+		sm = fmt.Sprintf(" small-threshold=%d", c.Small)
+	}
+	return fmt.Sprintf("chunks=%v workers=%d bitmap=%v hash=%s tail=%d delay=%dms noanswer=%v%s", c.Chunks, c.Streams, c.Bitmap, c.Hash, c.Tail, c.Delay, c.NoAns, sm)
 }
 
 type handout struct {
@@ -255,11 +262,11 @@ func runC17(c C17Case) {
 		}
 		tree = append(tree, Entry{Path: fmt.Sprintf("f%d", i), Size: size})
 	}
-	pk := fmt.Sprint(c.Chunks, c.Streams, c.Tail)
+	pk := fmt.Sprint(c.Chunks, c.Streams, c.Tail, c.Small)
 	p := c17prep[pk]
 	if p == nil {
 		var err error
-		p, err = prepare(Case{Tree: tree, Chunk: 4, Streams: c.Streams, Conns: 1, Resume: true, NoRootDir: true, Tail: c.Tail})
+		p, err = prepare(Case{Tree: tree, Chunk: 4, Streams: c.Streams, Conns: 1, Resume: true, NoRootDir: true, Tail: c.Tail, SmallThr: c.Small})
 		if err != nil {
 			panic(err)
 		}
@@ -403,7 +410,7 @@ func checkC17(c C17Case, x *vrt.Exec) {
 		return
 	}
 	// wire-level oracle
-	p := c17prep[fmt.Sprint(c.Chunks, c.Streams, c.Tail)]
+	p := c17prep[fmt.Sprint(c.Chunks, c.Streams, c.Tail, c.Small)]
 	items := fileItems(p)
 	for fi, it := range items {
 		key := fileKey(it)
@@ -541,6 +548,21 @@ func modeC17() {
 					cases = append(cases, C17Case{Chunks: []int{2, 3}, Streams: w, Bitmap: []int{b0, b1}, Hash: h})
 				}
 			}
+		}
+	}
+	// files above the sender's small-file threshold (threshold 2 bytes): the scheduler's weighted
+	// path decides which file starts next; one and two such files, also more slots than files
+	for _, chunks := range [][]int{{2}, {3}, {2, 1}, {2, 3}} {
+		for _, w := range []int{2, 3} {
+			if len(chunks) > 1 && w > 2 && !thorough {
+				continue
+			}
+			for _, h := range []string{"right", "wrong"} {
+				bm := make([]int, len(chunks))
+				bm[0] = 1
+				cases = append(cases, C17Case{Chunks: chunks, Streams: w, Bitmap: bm, Hash: h, Small: 2})
+			}
+			cases = append(cases, C17Case{Chunks: chunks, Streams: w, NoAns: true, Small: 2})
 		}
 	}
 	sort.SliceStable(cases, func(i, j int) bool { return len(cases[i].Chunks) < len(cases[j].Chunks) })
